@@ -21,7 +21,7 @@ CLAIMS = {
  "C14": ("hint file header and item codec (writer appends exactly the item encoding, reader decodes the item at its offset), lookup uses the reader in sync with its logical offset and returns only an item with exactly the wanted (hash,key), comparison orders (byKeyHash, mergeHeap, Position.CmpKey monotone), merge writer flush",
          "not under contract: HintBuffer.Dump ordering, index-row well-formedness and completeness of get (item found iff present), merge() main loop, mergeWriter.write (contract exists, one conjunct at the solver limit, not in the check); sort/heap are library contracts"),
  "C15": ("path digits, bucket id = leading digits, InitTree derived configuration for 1/16/256 buckets, path parsing; every depth 0..2 enumerated; HStore.Get/Incr route to exactly the bucket named by the leading digits and a bucket that is not READY answers a miss and touches nothing",
-         "not under contract: HStore.Set gate (goes through checkAndSet), NewHStore's choice of buckets to open, upper-level listing, directory naming (string formatting)"),
+         "not under contract: NewHStore's choice of buckets to open, upper-level listing, directory naming (string formatting)"),
  "C16": ("fnv1a (both copies), value hash, key-hash composition, CRC-32 table (256 ground obligations) and table step lemma proved for all inputs",
          "assumed + bounded differential: murmur3 library, the C CRC loop (crc32.write)"),
  "C02": ("the two replay loops of a restart, step by step, for every file content: buildHintFromData turns every record the scanner delivers from the start offset on into exactly one hint item carrying the record's key, key hash, version (tombstones included) and offset (ghost counters: items indexed = records scanned; step assertion per item); updateHtreeFromHint applies every item the hint reader delivers exactly once: a live version points the slot of its key hash at (chunk, offset) with the item's version and value hash, a tombstone removes the slot unconditionally (step assertions against the tree view; counters: items applied = items read)",
